@@ -10,12 +10,12 @@ def add(i, cat, tech, text, note, ref): CHECKS[i] = (cat, tech, text, note, ref)
 
 add("C01", "model_checking",
     "exhaustive product enumeration + depth-bounded explicit-state search of instruction sequences on the real Machine, lock-step against REF-ISA",
-    "Every point of the stated per-instruction products (all 8 reg-reg ALU ops x 16 register pairs x all 65 536 value pairs x carry-in in the thorough tier; every other opcode x 256 values x 16 flags x FR upper bits x 4 SPs; 16 x 128 two-byte forms x pointer-set^2 x placements) is executed on the real machine from boundary to boundary and compared with an instruction-level reference; all instruction sequences up to depth 2/3 over a 48-instruction alphabet from 3 start states are compared after every instruction (a first-byte STOP is followed by the continue key and the comparison goes on); code executing out of the I/O page (every byte pair in the input registers at PC=0xFC, every byte on the board port at PC=0xF0); the repository's programs, assembled by REF-ASM, in lock-step for up to 1 500 / 20 000 instructions.",
+    "Every point of the stated per-instruction products (all 8 reg-reg ALU ops x 16 register pairs x all 65 536 value pairs x carry-in in the thorough tier; every other opcode x 256 values x 16 flags x FR upper bits x 4 SPs; 16 x 128 two-byte forms x pointer-set^2 x placements) is executed on the real machine from boundary to boundary and compared with an instruction-level reference; all instruction sequences up to depth 2/3 over a 48-instruction alphabet from 3 start states are compared after every instruction (a first-byte STOP is followed by the continue key and the comparison goes on); code executing out of the I/O page (every byte pair in the input registers at PC=0xFC, every byte on the board port at PC=0xF0); the repository's programs, assembled by REF-ASM, in lock-step for up to 1 500 / 20 000 instructions; the sequence and program runs are repeated with the public read-only API called after every clock edge (results and edge counts must not move). The reference I/O page is REF-BUS (not a real Bus), so address-decoding faults show through instructions.",
     "Trusted: REF-ISA (statement clauses normative, frozen corners in refmodel/FROZEN.md); I/O side delegated to a real Bus (C10/C14); states with SP>=0xF0 left to C05; sequences longer than the bound and RAM contents outside the pattern family are outside the verdict.",
     "DESIGN.md 3/C01")
 add("C08", "model_checking",
     "complete enumeration of the 2 097 152-point input space of the real AluOutput::from_input against REF-ALU",
-    "All 16 x 256 x 256 x 2 points are executed and compared field by field; exhaustive:true in both tiers.",
+    "All 16 x 256 x 256 x 2 points are executed and compared field by field; exhaustive:true in both tiers; the select code of every function, the decoder used by the machine for every programmed control word and AluInput::default() are checked as well.",
     "Trusted: REF-ALU (doc list alu.rs:8-46 + C08 statement; carry of A/NOR/ZERO frozen at 0).",
     "DESIGN.md 3/C08")
 add("C15", "exploration",
@@ -32,19 +32,19 @@ add("C09", "model_checking",
 
 add("C05", "model_checking",
     "per-edge invariant monitoring of exhaustively generated runs on the real Machine + explicit-state BFS (depth 3) over stimuli from every class of halted state reached",
-    "Every clock edge of every generated run (LDSP to all 256 values x walks x 5 stack sizes, recursion to the limit, jumps to all 256 targets x all 256 program-size limits, all first/second opcode bytes, all two-instruction sequences of a 23-instruction alphabet) is checked by an independent edge-level predictor of the Running/Stopped/ErrorStopped flip; halted states are expanded under 10 further stimuli to depth 3 and must be absorbing; continue from a STOP must resume with the next instruction (checked against REF-ISA).",
+    "Every clock edge of every generated run (LDSP to all 256 values x walks x 5 stack sizes, recursion to the limit, jumps to all 256 targets x all 256 program-size limits, all first/second opcode bytes, all two-instruction sequences of a 23-instruction alphabet) is checked by an independent edge-level predictor of the Running/Stopped/ErrorStopped flip; halted states are expanded under 10 further stimuli to depth 3 and must be absorbing; continue from a STOP must resume with the next instruction (checked against REF-ISA); limits installed by Machine::load, all ordered pairs of loads incl. NOSET and empty programs, expectation taken from the program texts.",
     "Trusted: REF-SUP bands (frozen) and predicates; the monitor reads pending-write/wait/last-bus-read latches via the verif-hooks accessors; at the conflict edge (rule broken and STOP loaded together) either halt kind is accepted.",
     "DESIGN.md 3/C05")
 
 add("C11", "model_checking",
     "explicit-state exploration of every mid-run machine state of a program corpus; twin comparison (assembly step vs. specification twin on raw clock edges) by whole-Machine equality; bounded termination analysis with exact state-cycle detection, confirmed in killable child processes",
-    "At every state reached by clock-stepping 0..70 edges into every ordered pair of a 35-instruction alphabet (interrupt just triggered or not, either step mode, halting and supervised programs included) one or three assembly steps on a clone must equal clock-stepping to the next boundary(ies); step-mode switches must not alter the machine; for all 256 first bytes and 4 x 256 second bytes the step must return, a non-returning step is accepted only for REF-ISA's undefined opcodes (known finding).",
+    "At every state reached by clock-stepping 0..70 edges into every ordered pair of a 35-instruction alphabet (interrupt just triggered or not, either step mode, halting and supervised programs included, also with the continue key pressed as soon as a program stops) one or three assembly steps on a clone must equal clock-stepping to the next boundary(ies); step-mode switches must not alter the machine; for all 256 first bytes and 4 x 256 second bytes the step must return, a non-returning step is accepted only for REF-ISA's undefined opcodes (known finding).",
     "Trusted: spec_step (the statement's wording on raw edges); REF-ISA's defined-opcode sets; a twin that repeats an identical full machine state or exceeds 4096 edges counts as never returning.",
     "DESIGN.md 3/C11")
 
 add("C04", "model_checking",
     "deviation-bounded exhaustive schedule enumeration (0, 1, 2 key presses at every clock edge / every ordered pair in a window) of generated programs on the real Machine, each schedule observed edge by edge against the uninterrupted twin",
-    "For every program of the family (prologue + every body sequence up to length 2/3 over 25 instruction kinds x 3 interrupt routines x 4 register initialisations; + enable-bit-clear, other-MICR-bits and EI-less variants, + second lives after a cpu/master reset of a machine that had the interrupt enabled and taken; main programs that are not transparent by construction are left out and counted) the key is pressed before every single clock edge 0..T, and at every ordered pair of edges in a 120-edge window; each run must enter the routine exactly as often as the statement requires, push FR (IE set) and a return address that is a boundary state of the uninterrupted run, have IE clear inside, replay the uninterrupted boundary sequence of the main program, and end with identical registers/flags/SP/outputs/RAM (outside exactly the stack slots written by entry sequences and routines).",
+    "For every program of the family (prologue + every body sequence up to length 2/3 over 25 instruction kinds x 3 interrupt routines x 4 register initialisations; + enable-bit-clear, other-MICR-bits and EI-less variants, + second lives after a cpu/master reset of a machine that had the interrupt enabled and taken, + a STOP in the main program followed by the continue key (presses while Stopped included); main programs that are not transparent by construction are left out and counted) the key is pressed before every single clock edge 0..T, and at every ordered pair of edges in a 120-edge window; each run must enter the routine exactly as often as the statement requires, push FR (IE set) and a return address that is a boundary state of the uninterrupted run, have IE clear inside, replay the uninterrupted boundary sequence of the main program, and end with identical registers/flags/SP/outputs/RAM (outside exactly the stack slots written by entry sequences and routines).",
     "Trusted: the classification of a press as 'while enabled' (MICR bit and IE at the press, IE still set at the sampling edge); presses in other windows may enter 0 or 1 times; sampling edges are read from the public Signals + wait latch accessor.",
     "DESIGN.md 3/C04")
 
@@ -55,7 +55,7 @@ add("C02", "translation_validation",
     "DESIGN.md 3/C02")
 add("C03", "exploration",
     "bounded exhaustive enumeration of input strings (grammar-derived sentence products, all short strings over a special-character alphabet, all single-token mutations of a corpus) with a differential oracle: real parser vs. an independent PEG recogniser + AST builder",
-    "For every enumerated input: no panic; accept/reject and error class agree with REF-PARSE; on acceptance the complete AST (lines, instructions, operands, values, labels with case, trimmed comments, header comment) is equal.",
+    "For every enumerated input: no panic; accept/reject and error class agree with REF-PARSE; the binary's own file reader (`2a-emulator verify FILE`, 2 900 files incl. BOM / CR / CRLF / non-UTF-8) exits 0 exactly for texts of the language; on acceptance the complete AST (lines, instructions, operands, values, labels with case, trimmed comments, header comment) is equal.",
     "Trusted: REF-PARSE (hand transcription of the documented mrasm language into an own PEG interpreter). Strings outside the enumerated families are outside the verdict.",
     "DESIGN.md 3/C03")
 add("C06", "exploration",
@@ -71,12 +71,12 @@ add("C16", "exploration",
     "DESIGN.md 3/C16")
 
 add("C10", "model_checking",
-    "exhaustive enumeration of single operations (256 addresses x 256 values from rich prior states on 3 base buses incl. pending-interrupt ones) and of all 65 536 ordered write-address pairs, plus explicit-state BFS (depth 3/4) over reads, writes (special values) and resets on the real Bus, lock-step with a map-based reference",
+    "exhaustive enumeration of single operations (256 addresses x 256 values from rich prior states on 3 base buses incl. pending-interrupt ones) and of all 65 536 ordered write-address pairs, plus explicit-state BFS (depth 3/4) over reads, writes (special values), resets and port changes through Bus::board_mut() on the real Bus, lock-step with a map-based reference; every ordered pair of (address, value) writes inside the I/O page",
     "After every operation all 256 addresses are read and RAM, outputs, MICR key bit and the board are compared with REF-BUS; every read must leave the Bus value unchanged (PartialEq); writes to 0xF0-0xFF never change RAM, 0xEF/0xF0 boundary exact, input registers unaffected by writes, outputs only by 0xFE/0xFF.",
     "Trusted: REF-BUS; the board behind 0xF0-0xF3 is the real Board on the reference side (C14 checks the board); UART/timer registers have no read-back and are only checked not to leak into anything observable.",
     "DESIGN.md 3/C10")
 add("C14", "model_checking",
-    "explicit-state BFS (depth 3/4) over port writes and external setters on the real Bus/Board against REF-BOARD, states deduplicated on the derived Debug of the real board (not on the reference state); threshold sweeps of every analog input through every DAC level in steps down to 1 ulp; exhaustive enumeration of f32 bit patterns (2^22 quick, all 2^32 thorough) through the three analog setters; every byte value at each of the four ports from 5 prior board states followed by every external event; all ordered pairs of control-port writes; all 256 DAC bytes for the fan law",
+    "explicit-state BFS (depth 3/4) over port writes and external setters on the real Bus/Board against REF-BOARD, states deduplicated on the derived Debug of the real board (not on the reference state); threshold sweeps of every analog input through every DAC level in steps down to 1 ulp; exhaustive enumeration of f32 bit patterns (2^22 quick, all 2^32 thorough) through the three analog setters; every byte value at each of the four ports from 5 prior board states followed by every external event; all ordered pairs of control-port writes; 4 000 boards of machines created with a MachineConfig; all 256 DAC bytes for the fan law",
     "After every operation the status registers 0xF0-0xF3 and the getters named in the statement (stored voltages, DAC outputs, UIO directions, interrupt control) equal REF-BOARD: clamping incl. NaN/inf, DAC = byte/100, comparator bits, jumpers, direction-gated UIO pins, edge interrupts raised exactly on the configured transition of the selected source, flip-flop clearing, fan period = 255 - DAC1 byte.",
     "Trusted: REF-BOARD written from the statement; frozen corners listed in refmodel/FROZEN.md (UOR drives status bits regardless of direction; FAN bit; flip-flop independent of IE). Fan rpm is not compared.",
     "DESIGN.md 3/C14")
@@ -88,19 +88,19 @@ add("C07", "model_checking",
     "DESIGN.md 3/C07")
 
 add("C13", "exploration",
-    "exhaustive enumeration of program heads (all 2^16 two-byte heads x 5 stack sizes x 3 limits; thorough: all 2^24 three-byte heads), of every bus address x value through instructions and direct Bus calls, of every stimulus sequence to depth 3/4 from 8 program states, and of every stimulus before every clock edge (phase) of 86 interrupt-using and hostile programs incl. ordered pairs of key presses; oracle: panic monitor (catch_unwind, overflow checks and debug assertions on), machine still readable and steppable",
+    "exhaustive enumeration of program heads (all 2^16 two-byte heads x 5 stack sizes x 3 limits; thorough: all 2^24 three-byte heads), of every bus address x value through instructions and direct Bus calls, of every stimulus sequence to depth 3/4 from 8 program states, and of every stimulus before every clock edge (phase) of 86 interrupt-using and hostile programs incl. ordered pairs of key presses; a pass with a Trace-level logger installed (log arguments evaluated); oracle: panic monitor (catch_unwind, overflow checks and debug assertions on), machine still readable and steppable",
     "Every call into Machine/RawMachine/Bus/Board made by these runs must return; after each event all getters are read and one more clock edge is issued.",
     "Stacksize::NotSet excluded (not one of the five sizes, never installed by load); RAM images beyond head+tail pattern and longer stimulus sequences are outside the verdict.",
     "DESIGN.md 3/C13")
 
 add("C12", "model_checking",
-    "exhaustive enumeration of run schedules (program x configuration x every budget 0..40/60 x every sub-multiset of interrupt cycles x every sub-multiset of reset cycles from the boundary sets) on the real RunnerConfig::run against a reference loop over the public Machine API; all expectation subsets x match/mismatch for verify(); stdout and exit status of the real binary per invocation",
+    "exhaustive enumeration of run schedules (program x configuration x every budget 0..40/60 x every sub-multiset of interrupt cycles x every sub-multiset of reset cycles from the boundary sets) on the real RunnerConfig::run against a reference loop over the public Machine API; all expectation subsets x match/mismatch for verify(); constructor == setters for every configuration field and pair; a RunnerConfig run twice and with fields assigned anew; stdout and exit status of the real binary per invocation (every byte literal in every spelling, 24 argument orders, -vvvv)",
     "emulated_cycles and the whole final Machine (PartialEq) equal REF-RUN's for every schedule; RunExpectations::verify is Ok exactly when every stated field matches and reports a stated mismatching field; the binary prints those cycle/state/FE/FF values, accepts every byte value in every spelling of the three radices as an input flag and as an expectation, is independent of the order of positionals, options and --opt=value spellings (all 24 orders), rejects 256/0x100, and exits non-zero exactly on read, parse or verification failure.",
     "Trusted: REF-RUN (the statement's loop); parse/compile are shared with the subject (C02/C03); CLI argument errors only need to exit non-zero without running.",
     "DESIGN.md 3/C12")
 
 add("C17", "model_checking",
-    "exploration of the full tree of key sequences (22-key alphabet, depth 4/5, no merging of states) on the real Tui event dispatch; command pairs, triples and history recall; exhaustive enumeration of terminal sizes and of a command-line family; every key compared with REF-EDIT / REF-CMD and a twin Machine driven by library calls; panic monitor on every transition and render",
+    "exploration of the full tree of key sequences (22-key alphabet, depth 4/5, no merging of states) on the real Tui event dispatch; command pairs, triples and history recall; sessions started with a program and every initial setting; file names wider than the interface; exhaustive enumeration of terminal sizes and of a command-line family; every key compared with REF-EDIT / REF-CMD and a twin Machine driven by library calls; panic monitor on every transition and render",
     "No key sequence / size makes handle_event or Interface::render panic; cursor and history index stay in range; editing keys behave as REF-EDIT; a submitted line is rejected with a notification or has exactly the effect of the documented command on the machine (PartialEq against the twin), values above 255 and trailing garbage rejected; control keys act as the library calls of the same name.",
     "Trusted: REF-EDIT / REF-CMD; completion results are adopted (only invariants checked); float spellings other than plain decimals are unspecified; crossterm I/O, raw mode and the real-time pacing of Tui::run are outside the check.",
     "DESIGN.md 3/C17")
